@@ -1230,6 +1230,9 @@ def _immutable_literal(e, consts, defs=()):
     if isinstance(e, ast.Call) and isinstance(e.func, ast.Attribute) and isinstance(e.func.value, ast.Name) and e.func.value.id == "re" \
             and e.func.attr == "compile" and not e.keywords and e.args and all(_immutable_literal(a, consts) for a in e.args):
         return True
+    if isinstance(e, ast.Call) and isinstance(e.func, ast.Name) and e.func.id in ("frozenset", "tuple", "bytes", "str") and not e.keywords \
+            and len(e.args) == 1 and isinstance(e.args[0], (ast.Constant, ast.Tuple)) and _immutable_literal(e.args[0], consts):
+        return True  # frozenset(b"\r\n\0"): an immutable value built from a literal
     return False
 
 
